@@ -669,10 +669,19 @@ int vnadata_convert(const vnadata_t *vdp_in, vnadata_t *vdp_out,
      * change the dimensions to a row vector.
      */
     if (vdp_in == vdp_out && (group & CONV_MASK) == CONV_xtoI) {
-	if (vdp_out->vd_rows < vdp_out->vd_columns) {
-	    vdp_out->vd_columns = vdp_out->vd_rows;
+	int new_columns = vdp_out->vd_columns;
+
+	if (vdp_out->vd_rows < new_columns) {
+	    new_columns = vdp_out->vd_rows;
 	}
-	vdp_out->vd_rows = 1;
+	/*
+	 * Shrink through vnadata_resize so that the vacated cells are
+	 * cleared exactly as for any other resize.
+	 */
+	if (vnadata_resize(vdp_out, newtype, 1, new_columns,
+		    vdp_out->vd_frequencies) == -1) {
+	    return -1;
+	}
     }
     return 0;
 }
